@@ -223,17 +223,28 @@ def run(ctx):
         meta.append(dict(kind='create_rle', seq=vals_, source=type(seq_obj).__name__))
         ctx.case(('create_rle', repr(seq_obj)), True)
     # (b) exhaustive record-triple sequences
+    # the first X of a record is whatever was logged: evenly spaced as a rule, but a depth gap, an overlap after a tool pull-back or a
+    # pause in a time log put a jump into an otherwise regular run of records (xjump = (record, amount))
+    t01_cases = []
     for n in range(0, maxrecs + 1):
         for steps in itertools.product([(dp, f) for dp in (10, 12) for f in (1, 2, 3)], repeat=n):
             if n and steps[0][0] != 10:
                 continue        # the first record's position step is irrelevant
+            t01_cases.append((steps, None))
+            if n >= 3 and len(set(steps[1:])) == 1:
+                for k_ in range(2, n):
+                    for amt in (500, -500, 1):
+                        t01_cases.append((steps, (k_, amt)))
+    for steps, xjump in t01_cases:
+        n = len(steps)
+        if True:
             t01 = LisRle.RLEType01('FEET')
             tr = []
             pos, frames_before = 100, 0
             recs = []
             for dp, f in steps:
                 pos = pos + dp if recs else 100
-                x = 1000 + frames_before * 5
+                x = 1000 + frames_before * 5 + (xjump[1] if xjump is not None and len(recs) >= xjump[0] else 0)
                 t01.add(pos, f, x)
                 recs.append((pos, f, x))
                 tr.append(dict(op='add_rec', pos=pos, frames=f, x=x))
@@ -246,7 +257,7 @@ def run(ctx):
                                **({} if ok else {'err': str(r)})))
             traces.append(tr)
             meta.append(dict(kind='t01', recs=recs))
-            ctx.case(('t01',) + tuple(steps), len({s for s in steps}) > 1)
+            ctx.case(('t01', xjump) + tuple(steps), len({s for s in steps}) > 1 or xjump is not None)
     # (c) long random histories, queries interleaved
     rng = ctx.subrng('long')
     for t in range(ctx.pick(60, 600)):
@@ -281,11 +292,14 @@ def run(ctx):
     for t in range(ctx.pick(40, 400)):
         t01 = LisRle.RLEType01('M')
         tr, recs, pos, fb = [], [], rng.randint(0, 500), 0
+        xoff = 0
         nrec = rng.choice([3, 10, 40])
         base_f = rng.randint(1, 9)
         for k in range(nrec):
             f = base_f if rng.random() < 0.8 else rng.randint(1, 12)
-            x = 5000 - fb * 2
+            if rng.random() < 0.12:
+                xoff += rng.choice([-300, 300, 40, -1])
+            x = 5000 - fb * 2 + xoff
             t01.add(pos, f, x)
             recs.append((pos, f, x))
             tr.append(dict(op='add_rec', pos=pos, frames=f, x=x))
